@@ -9,14 +9,17 @@
       none) — `show_and_groups_or`, `show_or_keeps_and`, `show_and_groups_and`;
     * a rule prints as `head.` or `head :- body.`; a unification prints infix — `show_fact`,
       `show_rule`, `show_unify`;
-  and the parser side for the token-level terms (see Props/C20.lean, whose lemmas give
-  `parse_term (show t) = ok t` for atoms without blanks, integers, variables and `$_`).
+  and the parser side for the token-level terms (see Props/C20.lean, whose lemmas reduce
+  `parse_term (show t)` to `make_term` for atoms without blanks, integers, variables and `$_`); for INTEGERS the round
+  trip is proved outright — `integers_round_trip`: every i64 prints as a text that parses back to it, alone and as an
+  argument (`Lemmas/ParseInt.lean`: the model of `str::parse::<i64>` inverts `Nat.repr`, by induction on the digit loop).
   The round trip for structured terms, goals and rules is decided on every run by the
   correspondence suite (grammar stream: text rendered by the harness' own renderer must parse
   to the denoted value, print back as the same text, and re-parse to the same value; the model's
   parser AND printer are compared with the implementation's on each of these cases).
 -/
 import SuironVerif.Model.ParseGoal
+import SuironVerif.Lemmas.ParseInt
 namespace Suiron.C19
 open Suiron.Parse
 
@@ -53,6 +56,22 @@ theorem show_rule (sf : UInt64 → String) (h : Term) (b : Goal) (s : String) (h
 theorem show_unify (sf : UInt64 → String) (l r : Term) :
     showGoal sf (.bip "unify" (some (.cons l (.cons r .nil)))) = .ok (Term.show sf l ++ " = " ++ Term.show sf r) := by
   simp [showGoal]
+
+/-- INTEGERS: for every i64, the printed text parses back to the same integer term — alone, and as an argument of a
+    complex term, built-in or function (`sf` is the float printer, irrelevant here). -/
+theorem integers_round_trip (po : POps) (sf : UInt64 → String) (f : Nat) (i : Int) (hlo : -(2:Int)^63 ≤ i) (hhi : i < (2:Int)^63) :
+    parseTerm po (f + 2) (Term.show sf (.int i)).toList = .ok (.int i) ∧
+    parseArguments po (f + 3) (Term.show sf (.int i)).toList = .ok [.int i] := by
+  have e : Term.show sf (.int i) = toString i := by simp [Term.show]
+  rw [e]
+  refine ⟨parseTerm_int po f i hlo hhi, ?_⟩
+  rw [parseArguments_token po (f + 2) (int_token i), termFlags_int]
+  have := makeTerm_int po (f + 1) i hlo hhi
+  simp only [this, Res.bind]
+
+/-- non-vacuity: the smallest and the largest i64 -/
+example : -(2:Int)^63 ≤ -9223372036854775808 ∧ (-9223372036854775808 : Int) < (2:Int)^63 := by decide
+example : -(2:Int)^63 ≤ 9223372036854775807 ∧ (9223372036854775807 : Int) < (2:Int)^63 := by decide
 
 /-! non-vacuity: concrete bodies with a disjunction inside a conjunction and a conjunction inside a
     disjunction parse to the grouped values (kernel-evaluated). That the printer writes them back as the
